@@ -292,19 +292,28 @@ Definition src_to_dataframe (rows_from : id_source) (rule : col_rule) (c : conta
     else Ok (mkT names rws)
   end.
 
-(** [from_dataframe] with the key function of the rule *)
-Definition src_from_dataframe (r : split_rule) (t : table) : res container :=
+(** what a builder does with the outcome of one addition: an exception propagates *)
+Definition src_outcome (r : srcres) : res container :=
+  match r with SAdded c' => Ok c' | SRaised e _ => Err e | SOutside => Err Unmodelled end.
+
+(** [from_dataframe] with the key function of the rule; every row is added by the source-level program *)
+Definition src_from_dataframe (tt : type_table) (p : list astep) (r : split_rule) (t : table) : res container :=
   if negb (nodup_str (cols t)) then Err Unmodelled
   else
   do groups <- src_group_cols r (cols t) [];
   fold_left (fun acc row =>
       do c <- acc;
       do d <- mapM (fun g => do v <- row_value (cols t) (snd row) (snd g); Ok (fst g, v)) groups;
-      match add c (fst row) (ArgDict d) with
-      | Added c' => Ok c'
-      | Rejected e => Err e
-      | AcceptedOutsideModel => Err Unmodelled
-      end) (rows t) (Ok empty).
+      src_outcome (src_add tt p c (fst row) (ArgDict d))) (rows t) (Ok empty).
+
+(** [from_pytorch]; every individual is added by the source-level program *)
+Definition src_from_pytorch (tt : type_table) (p : list astep) (ids : list pyid) (d : list (string * tensor)) : res container :=
+  if negb (forallb (fun kt => Nat.eqb (tensor_len (snd kt)) (List.length ids)) d) then Err InputError
+  else
+  fold_left (fun acc ii =>
+      do c <- acc;
+      do pd <- mapM (fun kt => do v <- tensor_row (snd kt) (fst ii); Ok (fst kt, v)) d;
+      src_outcome (src_add tt p c (snd ii) (ArgDict pd))) (combine (seq 0 (List.length ids)) ids) (Ok empty).
 
 (** [to_pytorch]: the rows of every tensor from [rows_from], the identifiers returned from [ids_from] *)
 Record torch_iter := mkTI { ti_rows_from : id_source; ti_ids_from : id_source }.
@@ -443,3 +452,29 @@ Definition src_load_format (d : list string * string) (path : string) : res fmt 
 
 Definition ref_load_dispatch : list string * string := (["csv"; "json"], "csv").
 Definition ref_writers : list string := ["__init__"; "add_individual_parameters"; "_load_json"].
+
+(** [save] (l. 557-579): the extension used when the path has none ([_default_saving_type], set in [__init__]), the extension
+    that selects the csv writer and the one that selects the json writer; anything else is refused *)
+Record save_rule := mkSV { sv_default : string; sv_csv : string; sv_json : string }.
+
+Definition src_save_target (r : save_rule) (c : container) (path : string) : res (string * fmt) :=
+  match shapes c with
+  | None => Err InputError
+  | Some _ =>
+    let dispatch (p e : string) :=
+      if String.eqb e (sv_csv r) then Ok (p, Csv) else if String.eqb e (sv_json r) then Ok (p, Json) else Err InputError in
+    match get_extension path with
+    | None => dispatch (path ++ "." ++ sv_default r) (sv_default r)
+    | Some e => dispatch path e
+    end
+  end.
+
+Definition ref_save_rule : save_rule := mkSV "csv" "csv" "json".
+
+(** save(csv) / load(csv) = [_save_csv] ([to_dataframe], text) then [_load_csv] (text, [from_dataframe]) *)
+Definition src_csv_roundtrip (tt : type_table) (p : list astep) (rows : id_source) (rule : col_rule) (split : split_rule)
+    (c : container) : res container :=
+  match shapes c with
+  | None => Err InputError
+  | Some _ => do t <- src_to_dataframe rows rule c; do t' <- csv_reread t; src_from_dataframe tt p split t'
+  end.
